@@ -2,46 +2,53 @@
 #include "pktitr.h"
 #include "pktitr.c"
 
-/* the CIF / container / loop handles are static objects (zero-initialised): pointer chains through them stay precise for CBMC */
+/* the CIF / container / loop handles are static objects: pointer chains through them stay precise for CBMC */
 static cif_tp the_cif; static cif_container_tp the_container; static cif_loop_tp the_loop;
 static cif_pktitr_tp *make_iterator(int with_stmts) {
     cif_tp *cif = &the_cif;
     cif->db = (sqlite3 *)&g_cat_kind;   /* an opaque non-NULL handle */
-    if (with_stmts & 1) { cif->remove_packet_stmt = malloc(sizeof(struct sqlite3_stmt)); __CPROVER_assume(cif->remove_packet_stmt != NULL); cif->remove_packet_stmt->is_write = 1; }
-    if (with_stmts & 2) { cif->reset_packet_num_stmt = malloc(sizeof(struct sqlite3_stmt)); __CPROVER_assume(cif->reset_packet_num_stmt != NULL); cif->reset_packet_num_stmt->is_write = 1; }
-    if (with_stmts & 4) { cif->update_value_stmt = malloc(sizeof(struct sqlite3_stmt)); __CPROVER_assume(cif->update_value_stmt != NULL); cif->update_value_stmt->is_write = 1; }
+    /* NB: under goto-instrument --dfcc objects of static lifetime start with arbitrary content, not zeroes: every field that is read must be set here */
+    g_stmt_pool[0].is_write = 0; g_stmt_pool[1].is_write = 1;
+    cif->remove_packet_stmt = (with_stmts & 1) ? &g_stmt_pool[1] : NULL;
+    cif->reset_packet_num_stmt = (with_stmts & 2) ? &g_stmt_pool[1] : NULL;
+    cif->update_value_stmt = (with_stmts & 4) ? &g_stmt_pool[1] : NULL;
+    cif->get_packet_num_stmt = NULL; cif->update_packet_num_stmt = NULL; cif->insert_value_stmt = NULL;
     the_container.cif = cif; the_container.id = 1;
     the_loop.container = &the_container; the_loop.loop_num = nondet_int();
     cif_pktitr_tp *it = malloc(sizeof *it); __CPROVER_assume(it != NULL);
     it->stmt = NULL; it->loop = &the_loop; it->item_names = NULL; it->name_set = NULL; it->previous_row_num = nondet_int(); it->finished = nondet_int();
     return it;
 }
+unsigned nondet_unsigned(void);
 static void sql_state(void) {
-    g_tx_open = nondet_int() ? 1 : 0; g_sp_depth = nondet_int(); __CPROVER_assume(g_sp_depth >= 0 && g_sp_depth < 1000 && (g_tx_open || g_sp_depth == 0));
-    g_tx_writes = (unsigned)nondet_int() % 1000; g_sp_writes = (unsigned)nondet_int() % 1000; __CPROVER_assume(g_sp_writes <= g_tx_writes);
-    g_durable_writes = (unsigned)nondet_int() % 1000; g_lost_writes = (unsigned)nondet_int() % 1000;
+    g_tx_open = nondet_int() ? 1 : 0; g_tx_by_sp = 0; g_sp_depth = nondet_int(); g_undo_failed = 0;
+    g_tx_writes = nondet_unsigned(); g_durable_writes = nondet_unsigned(); g_lost_writes = nondet_unsigned();
+    g_sp_mark[0] = nondet_unsigned(); g_sp_mark[1] = nondet_unsigned(); g_sp_mark[2] = nondet_unsigned(); g_sp_mark[3] = nondet_unsigned();
     g_commits = g_rollbacks = g_begins = g_saves = g_releases = g_rollback_tos = g_write_steps = g_finalized = 0;
+    __CPROVER_assume(SQL_ENTRY);
 }
 void harness_remove_packet(void) {
     cif_pktitr_tp *it = make_iterator(nondet_int());
     sql_state(); g_cat_kind = nondet_int(); __CPROVER_assume(g_cat_kind >= 0 && g_cat_kind <= 3);
-    int prev = it->previous_row_num, open0 = g_tx_open; unsigned dur0 = g_durable_writes;
+    int prev = it->previous_row_num, open0 = g_tx_open; unsigned dur0 = g_durable_writes, lost0 = g_lost_writes;
     int r = cif_pktitr_remove_packet(it);
     POST(open0 || r == CIF_INVALID_HANDLE, "C06 a stale iterator (no transaction open) is refused with CIF_INVALID_HANDLE");
     POST(!(open0 && prev <= 0) || (r == CIF_MISUSE && g_write_steps == 0), "C06 remove without a current packet is CIF_MISUSE and writes nothing");
     POST(r != CIF_OK || it->previous_row_num == -1, "C06 after a successful remove there is no current packet (a second remove / update is CIF_MISUSE)");
     POST(r == CIF_OK || g_durable_writes == dur0, "C05 a failed remove makes nothing durable");
+    POST(r == CIF_OK || g_undo_failed || (g_tx_open == open0 && g_lost_writes - lost0 == g_write_steps), "C05 a failed remove undoes exactly what it wrote and leaves the enclosing transaction open");
     if (r == CIF_OK && g_cat_kind == 1) REACH("removed-scalar"); if (r == CIF_OK && g_cat_kind != 1) REACH("removed"); if (r == CIF_MISUSE) REACH("misuse"); if (r != CIF_OK && g_write_steps) REACH("rolled-back");
 }
 void harness_update_packet(void) {
     cif_pktitr_tp *it = make_iterator(nondet_int());
     sql_state();
     cif_packet_tp *p = malloc(sizeof *p); __CPROVER_assume(p != NULL); p->map.head = NULL; p->map.is_standalone = 1; p->map.normalizer = NULL;
+    if (nondet_int()) { struct entry_s *e = malloc(sizeof *e); __CPROVER_assume(e != NULL); e->hh.next = NULL; e->hh.prev = NULL; e->key = NULL; e->key_orig = NULL; p->map.head = e; }
     int prev = it->previous_row_num, open0 = g_tx_open;
     int r = cif_pktitr_update_packet(it, p);
     POST(open0 || r == CIF_INVALID_HANDLE, "C06 a stale iterator is refused with CIF_INVALID_HANDLE");
     POST(!(open0 && prev <= 0) || (r == CIF_MISUSE && g_write_steps == 0), "C06 update without a current packet is CIF_MISUSE and writes nothing");
-    if (r == CIF_OK) REACH("updated"); if (r == CIF_MISUSE) REACH("misuse");
+    if (r == CIF_OK) REACH("updated"); if (r == CIF_MISUSE) REACH("misuse"); if (r == CIF_WRONG_LOOP) REACH("wrong-loop");
 }
 void harness_close(void) {
     cif_pktitr_tp *it = make_iterator(0);
